@@ -158,15 +158,12 @@ def _verdict(fn):
         return ('other:' + type(e).__name__, e)
 
 
-def build_event_api(ev):
+def build_event_api(ev, shape=0):
     from hpl.ast import HplEventDisjunction, HplSimpleEvent
 
     if ev[0] == 'disj':
         alts = [build_event_api(a) for a in ev[1]]
-        out = alts[-1]
-        for a in reversed(alts[:-1]):
-            out = HplEventDisjunction(a, out)
-        return out
+        return lib.nest(alts, shape, HplEventDisjunction)
     _, topic, alias, pred = ev
     p = None
     if pred is not None:
@@ -174,29 +171,29 @@ def build_event_api(ev):
     return HplSimpleEvent.publish(topic, predicate=p, alias=alias)
 
 
-def build_scope_api(scope):
+def build_scope_api(scope, shape=0):
     from hpl.ast import HplScope
 
     _, kind, act, term = scope
     if kind == 'globally':
         return HplScope.globally()
     if kind == 'after':
-        return HplScope.after(build_event_api(act))
+        return HplScope.after(build_event_api(act, shape))
     if kind == 'until':
-        return HplScope.until(build_event_api(term))
-    return HplScope.after_until(build_event_api(act), build_event_api(term))
+        return HplScope.until(build_event_api(term, shape))
+    return HplScope.after_until(build_event_api(act, shape), build_event_api(term, shape // 2))
 
 
-def build_pattern_api(pat):
+def build_pattern_api(pat, shape=0):
     from hpl.ast import HplPattern
 
     _, kind, trig, beh, _bound = pat
-    b = build_event_api(beh)
+    b = build_event_api(beh, shape)
     if kind == 'existence':
         return HplPattern.existence(b)
     if kind == 'absence':
         return HplPattern.absence(b)
-    t = build_event_api(trig)
+    t = build_event_api(trig, shape // 2 + (1 if shape else 0))
     if kind == 'response':
         return HplPattern.response(t, b)
     if kind == 'prevention':
@@ -227,14 +224,15 @@ def sub_sanity(inp):
             'sanity', f'parse:{want}:{got}', dict(inp, text=text),
             f'{text!r}: scoping oracle says {want}, the parser says {got}' + (f' ({type(r).__name__}: {str(r)[:200]})' if got != 'accept' else ''),
         )  # fmt: skip
-    # API route
-    got2, r2 = _verdict(lambda: HplProperty(build_scope_api(m[2]), build_pattern_api(m[3])))
+    # API route (disjunctions nested as the parser does, or - inp['nest'] - in another shape)
+    shape = inp.get('nest', 0)
+    got2, r2 = _verdict(lambda: HplProperty(build_scope_api(m[2], shape), build_pattern_api(m[3], shape)))
     if got2 != expect:
         raise Violation('sanity', f'api:{want}:{got2}', dict(inp, text=text), f'{text!r} built through the API: oracle says {want}, constructors say {got2} ({r2!r})'[:600])
-    if got == 'accept' and got2 == 'accept' and r != r2:
+    if got == 'accept' and got2 == 'accept' and not shape and r != r2:
         raise Violation('sanity', 'api-differs', dict(inp, text=text), f'{text!r}: the API-built property differs from the parsed one')
     # but() route: scope and pattern are (where constructible) built on their own, then swapped into an accepted property
-    parts = _verdict(lambda: (build_scope_api(m[2]), build_pattern_api(m[3])))
+    parts = _verdict(lambda: (build_scope_api(m[2], shape), build_pattern_api(m[3], shape)))
     if parts[0] == 'accept':
         s, p = parts[1]
         got3, r3 = _verdict(lambda: neutral_property().but(scope=s, pattern=p))
@@ -289,7 +287,7 @@ def gen_simple(ch, topic, own_alias_prob=4):
 
 
 def gen_event(ch, topics):
-    w = ch.pick([1, 1, 1, 2, 2, 3])
+    w = ch.pick([1, 1, 1, 2, 2, 3, 4])
     ts_ = ch.sample(topics, min_size=w, max_size=w)
     if ch.int(0, 24) == 0 and w >= 2:
         ts_[1] = ts_[0]  # duplicate channel fault
@@ -319,7 +317,7 @@ def gen_case(ch):
     trig = gen_event(ch, TOPICS) if pk not in ('existence', 'absence') else None
     beh = gen_event(ch, TOPICS)
     m = ('prop', (), ('scope', sk, act, term), ('pat', pk, trig, beh, None))
-    return {'m': m}
+    return {'m': m, 'nest': ch.pick([0, 0, 1, 2, 5, 11])}
 
 
 def gen_hygiene_case(ch):
@@ -384,6 +382,15 @@ def _shadow_part(ch, bound, depth):
     n = ch.pick(SHADOW_NAMES)
     dom_alias = ch.pick([None, None, None] + [a for a in SHADOW_NAMES if a not in bound])
     dom = own(ch.pick(['xs', 'ys'])) if dom_alias is None else ('field', ('var', dom_alias), 'ys')
+    if depth > 0 and ch.int(0, 4) == 0:
+        # a quantifier INSIDE the domain (as a range bound, behind a conversion; or inside an index): its variable comes
+        # from the same pool, so it may be the very name the outer quantifier binds
+        n2 = ch.pick(SHADOW_NAMES)
+        inner = ('q', ch.pick(['forall', 'exists']), n2, own('zs'), gt(('var', n2), zero))
+        if ch.bool():
+            dom = ('range', zero, ('call', 'int', inner), False, ch.bool())
+        else:
+            dom = ('field', ('index', own('ms'), ('call', 'int', inner)), 'ys')
     inner = tuple(bound) + (n,)
     bk = ch.int(0, 5)
     if bk == 0:
